@@ -89,6 +89,11 @@ __gmp_doprnt_integer (const struct doprnt_funs_t *funs,
   /* the influence of p->prec on mpq is currently undefined */
   zeros = MAX (0, p->prec - slen);
 
+  /* C99: for o conversion, # increases the precision only if necessary to
+     force the first digit to be a zero */
+  if (zeros != 0 && p->base == 8 && slash == NULL)
+    showbaselen = 0;
+
   /* space left over after actual output length */
   justlen = p->width
     - (strlen(s) + signlen + showbaselen + den_showbaselen + zeros);
